@@ -12,7 +12,7 @@ CONSTANTS
   FSet <- MCF
   JSet = {4}
   TSet = {1, 2}
-  EqualOnly = TRUE
+  EqualOnly = FALSE
   Emit = TRUE
-INVARIANTS AlgoIsSpec DetailedBalance Positive LinearInJ2 NeutralIgnoresField FieldAntisymmetric Vector
+INVARIANTS AlgoIsSpec DetailedBalance ExponentNonPositive Positive LinearInJ2 NeutralIgnoresField FieldAntisymmetric Vector
 CHECK_DEADLOCK FALSE
